@@ -63,6 +63,14 @@ C20_Call_Failed(c) ==
     (IF c.len = AbsV(c.rs - c.re) - AbsV(c.qs - c.qe) THEN {} ELSE {"length_is_reference_gap_minus_query_gap"})
     \cup (IF (c.type = "insertion") <=> (c.len < 0) THEN {} ELSE {"insertion_iff_length_negative"})
     \cup (IF c.type \in {"insertion", "deletion"} THEN {} ELSE {"type_is_insertion_or_deletion"})
+\* one invocation of a finder: what it returns comes from the alignment and the break points it was fed, nothing else
+\* (fed = [qid, chr, nbreak])
+C20_Finder_Failed(cs, fed) ==
+    UNION {C20_Call_Failed(cs[i]) : i \in 1..Len(cs)}
+    \cup (IF \A i \in 1..Len(cs) : cs[i].qid = fed.qid /\ cs[i].chr = fed.chr THEN {}
+          ELSE {"calls_come_from_the_alignment_that_was_fed"})
+    \cup (IF Len(cs) <= fed.nbreak THEN {} ELSE {"at_most_one_call_per_break_point"})
+
 \* end to end (sv/molecule_indels.py on COMA's own output files): the coordinates of an un-merged call are those of two
 \* CONSECUTIVE aligned pairs of the joined record of that query ("the two flanking aligned labels")
 C20_Flank_Failed(c, pairs, refx, qryx) ==
